@@ -70,7 +70,7 @@ func (q *compiledQuery) Compile(w *ecs.World, include, optional, exclude []Comp,
 		isRelation := false
 		if targetType.Kind() == reflect.Struct && targetType.NumField() > 0 {
 			field := targetType.Field(0)
-			isRelation = field.Type == relationType && field.Name == relationType.Name()
+			isRelation = field.Anonymous && field.Type == relationType
 		}
 		if !isRelation {
 			panic(fmt.Sprintf("component type %v is not a relation", targetType))
